@@ -413,4 +413,12 @@ theorem c03_x_loader_probes_until_separator :
     loaderLoops = ["loadIDs: for{} break if header.Len() == 0", "skipTokens: for{} break if header.Len() == 0",
       "skipTokens: for{} break if header.Len() == 0", "loadLIDsBlocksTable: for{} break if header.Len() == 0"] := by decide
 
+/-- start-up clean-up of a fraction that already has `.sdocs` and `.index`: the leftover `.meta` and the leftover
+unsorted `.docs` are each removed unconditionally of the other (Active.Release removes `.meta` first, then `.docs`;
+`Sealed.openDocs` prefers `.docs`, and the index positions describe the sorted `.sdocs` - `c03_sortedDocs_fetch_same`
+is about that file) -/
+theorem c03_x_loader_removes_leftover_docs :
+    loaderSealedCleanup = ["if info.hasMeta remove info.base + consts.MetaFileSuffix",
+      "if info.hasDocs remove info.base + consts.DocsFileSuffix"] := by decide
+
 end SV.Props.C03
